@@ -238,3 +238,40 @@ func ZVLengths() map[string]int {
 		"aeadNonceLength":      aeadNonceLength,
 	}
 }
+
+// zvFixedShare is a tls13KeyShare whose (EC)DHE result is given, so that the key schedule of
+// establishHandshakeKeys can be driven with a chosen shared secret.
+type zvFixedShare struct{ shared []byte }
+
+func (f zvFixedShare) Group() CurveID                   { return X25519 }
+func (f zvFixedShare) PublicKey() []byte                { return nil }
+func (f zvFixedShare) SharedKey([]byte) ([]byte, error) { return f.shared, nil }
+
+// ZVEstablishHandshakeKeys13 runs the client's real establishHandshakeKeys on a handshake state holding the given
+// early secret (used only when usingPSK), shared key and transcript (ClientHello..ServerHello), and returns the client /
+// server handshake traffic secrets installed in the connection halves and the master secret.
+func ZVEstablishHandshakeKeys13(suiteID uint16, usingPSK bool, earlySecret, sharedKey, transcript []byte) (clientSecret, serverSecret, masterSecret []byte, err error) {
+	s := cipherSuiteTLS13ByID(suiteID)
+	c := &Conn{config: &Config{}, isClient: true}
+	hs := &clientHandshakeStateTLS13{
+		c:                c,
+		suite:            s,
+		hello:            &clientHelloMsg{random: make([]byte, 32)},
+		serverHello:      &serverHelloMsg{serverShare: keyShare{group: X25519}},
+		keySharesByGroup: map[CurveID]tls13KeyShare{X25519: zvFixedShare{sharedKey}},
+		usingPSK:         usingPSK,
+		earlySecret:      earlySecret,
+		transcript:       zvTranscript(s, transcript, false),
+	}
+	if err = hs.establishHandshakeKeys(); err != nil {
+		return
+	}
+	return c.out.trafficSecret, c.in.trafficSecret, hs.masterSecret, nil
+}
+
+// ZVKeysForSuite calls keysFromMasterSecret the way establishKeys does: with the suite's own macLen, keyLen, ivLen.
+func ZVKeysForSuite(version, suiteID uint16, masterSecret, clientRandom, serverRandom []byte) [6][]byte {
+	suite := cipherSuiteByID(suiteID)
+	a, b, c, d, e, f := keysFromMasterSecret(version, suite, masterSecret, clientRandom, serverRandom, suite.macLen, suite.keyLen, suite.ivLen)
+	return [6][]byte{a, b, c, d, e, f}
+}
